@@ -117,32 +117,65 @@ End SpecNatural.
 Definition chars_agree (prep : enc -> Z -> option Z) (e : enc) (o : op) : Prop :=
   forall c, In c (op_chars o) -> s_prep e c = option_map (decode1 e) (prep e c).
 
+Lemma strip0_id : forall l, Forall (fun c => c <> 0) l -> strip0 l = l.
+Proof.
+  induction l as [|x r IH]; intros H; [reflexivity|].
+  inversion H as [|? ? Hx Hr]; subst. simpl. rewrite (IH Hr).
+  destruct r; [|reflexivity]. replace (x =? 0) with false by (symmetry; apply Z.eqb_neq; exact Hx). reflexivity.
+Qed.
+
+(* string_array is included when the variant does not raise on all-empty rows and the decoded text has no NUL *)
 Theorem step_simulation : forall prep vr e v o,
-  enc_wf e -> enc_of v = e -> chars_agree prep e o -> o <> SArr ->
+  enc_wf e -> enc_of v = e -> chars_agree prep e o ->
+  (o = SArr -> v_sarr_empty_raises vr = false /\ sarr_ok (decode1 e) v) ->
   mapr (decode1 e) (g_step (model_prims_with prep vr) v o) = s_step (mapv (decode1 e) v) o.
 Proof.
   intros prep vr e v o Hwf He Hc Hns. unfold s_step.
   pose proof (decode1_inj e Hwf) as Hinj.
-  apply g_step_natural with (e := e); try assumption.
+  apply g_step_natural with (e := e) (sarr_sound := v_sarr_empty_raises vr = false); try assumption.
   - reflexivity.
   - intros. simpl. unfold m_join. rewrite join_spec. apply s_join_map.
   - intros. simpl. rewrite split_spec. apply split_on_map. exact Hinj.
   - intros. simpl. rewrite str_equal_spec. apply s_streq_map. exact Hinj.
   - intros. simpl. rewrite str_equal2_spec. apply s_streq2_map. exact Hinj.
   - intros. simpl. rewrite ragged_slice_spec. apply s_rslice_map.
+  - intros Hf rows Hnf. simpl. unfold m_sarr. rewrite Hf. simpl. f_equal.
+    apply map_ext_in. intros r Hr. apply strip0_id. unfold nulfree in Hnf. rewrite Forall_forall in Hnf.
+    specialize (Hnf r Hr). apply Forall_forall. intros c Hc'. apply in_map_iff in Hc'. destruct Hc' as [x [Ex Hx]].
+    subst c. rewrite Forall_forall in Hnf. apply Hnf. exact Hx.
+Qed.
+
+(* an encoding none of whose codes decodes to NUL: every alphabet without the NUL character *)
+Definition nul_free_enc (e : enc) : Prop := forall r, decode1 e r <> 0.
+Lemma nul_free_alpha al : enc_wf (Alpha al) -> ~ In 0 al -> nul_free_enc (Alpha al).
+Proof.
+  intros [_ Hpos] Hn r. unfold decode1.
+  destruct ((0 <=? r) && (r <? len al)) eqn:E.
+  - apply andb_true_iff in E. destruct E as [E1 E2]. apply Z.leb_le in E1. apply Z.ltb_lt in E2.
+    intros H0. apply Hn. rewrite <- H0. unfold nthZ. apply nth_In. unfold len in E2. lia.
+  - destruct (Z.ltb_spec r 0); lia.
+Qed.
+Lemma nul_free_sarr_ok e v : nul_free_enc e -> sarr_ok (decode1 e) v.
+Proof.
+  intros H. destruct v; simpl; try exact I. unfold nulfree. apply Forall_forall. intros r _.
+  apply Forall_forall. intros c _. apply H.
 Qed.
 
 (* whole programs: every step's observation, and the object copy() was called on *)
 Definition map_run (phi : Z -> Z) (l : list (obs * option value)) : list (obs * option value) :=
   map (fun p => (mapo phi (fst p), option_map (mapv phi) (snd p))) l.
+Definition sarr_side (vr : variant) (e : enc) (o : op) : Prop :=
+  o = SArr -> v_sarr_empty_raises vr = false /\ nul_free_enc e.
 Theorem run_simulation : forall prep vr e ops v saved,
-  enc_wf e -> enc_of v = e -> Forall (fun o => chars_agree prep e o /\ o <> SArr) ops ->
+  enc_wf e -> enc_of v = e -> Forall (fun o => chars_agree prep e o /\ sarr_side vr e o) ops ->
   map_run (decode1 e) (g_run (model_prims_with prep vr) v saved ops)
   = s_run (mapv (decode1 e) v) (option_map (mapv (decode1 e)) saved) ops.
 Proof.
   intros prep vr e. induction ops as [|o ops IH]; intros v saved Hwf He Hops; [reflexivity|].
   inversion Hops as [|o' l' [Hc Hns] Hrest]; subst o' l'.
-  pose proof (step_simulation prep vr e v o Hwf He Hc Hns) as Hs.
+  assert (Hns' : o = SArr -> v_sarr_empty_raises vr = false /\ sarr_ok (decode1 e) v).
+  { intros Eo. destruct (Hns Eo) as [Hf Hn]. split; [exact Hf|apply nul_free_sarr_ok; exact Hn]. }
+  pose proof (step_simulation prep vr e v o Hwf He Hc Hns') as Hs.
   pose proof (step_encoding_preserved (model_prims_with prep vr) v o) as [Henc _].
   unfold s_run, s_step in *. simpl g_run.
   destruct (g_step (model_prims_with prep vr) v o) as [v' ob].
@@ -296,7 +329,7 @@ Proof. intros H c _. rewrite H. reflexivity. Qed.
 Theorem program_head_partial : forall vr e ops v saved,
   match e with Base => True | Alpha al => alpha_ok al end -> enc_of v = e ->
   Forall (fun o => (forall c, In c (op_chars o) -> match e with Base => True | Alpha al => shadow al c = false end)
-                   /\ o <> SArr) ops ->
+                   /\ sarr_side vr e o) ops ->
   map_run (decode1 e) (g_run (model_prims_with m_prep_pinned vr) v saved ops)
   = s_run (mapv (decode1 e) v) (option_map (mapv (decode1 e)) saved) ops.
 Proof.
@@ -308,7 +341,7 @@ Proof.
 Qed.
 Theorem program_fixed_full : forall vr e ops v saved,
   match e with Base => True | Alpha al => alpha_ok al end -> enc_of v = e ->
-  Forall (fun o => o <> SArr) ops ->
+  Forall (sarr_side vr e) ops ->
   map_run (decode1 e) (g_run (model_prims_with m_prep vr) v saved ops)
   = s_run (mapv (decode1 e) v) (option_map (mapv (decode1 e)) saved) ops.
 Proof.
